@@ -260,6 +260,42 @@ def full_history(rng, sid, nops):
     return {'id': sid, 'ops': ops}
 
 
+def life_history(rng, sid):
+    """Lifetime history on the real emu.ComputeUnit: work-groups of kernels with different register counts are mapped,
+    run and completed one after the other; every wavefront is observed before its first write (DF), then writes
+    non-zero values all over its registers (many lanes) and ends."""
+    nvs = [4, 8, 64, 256]
+    rng.shuffle(nvs)
+    seq = nvs[:rng.choice([2, 3, 4])]
+    seq = [seq[0]] + seq                        # the same count twice in a row, then others, bigger and smaller
+    seq += [rng.choice([4, 8, 8, 64]) for _ in range(rng.choice([1, 2]))]
+    gens, nxt = [], 1
+    for nv in seq:
+        nwf = rng.choice([1, 1, 2]) if nv <= 64 else 1
+        ns = rng.choice([16, 24, 48, 102])
+        wfs = list(range(nxt, nxt + nwf))
+        nxt += nwf
+        ops = []
+        for w in wfs:
+            lanes = [0, 1, 2, 3, 63] + rng.sample(range(4, 63), 5 if nv < 256 else 2)
+            for lane in lanes:
+                c = rng.choice([x for x in COUNTS if width(x) <= nv and x >= min(nv, 4)] or [1])
+                i = rng.choice([0, nv - width(c)])
+                ops.append({'op': 'W', 'api': 'WB', 'w': w, 'k': 'v', 'i': i, 'c': c, 'lane': lane,
+                            'd': [rng.randrange(1, 256) for _ in range(4 * width(c))]})
+            for _ in range(3):
+                k, i, c, lane = pick_operand(rng, ns, nv)
+                ops.append(write_op(rng, w, k, i, c, lane))
+                if rng.random() < 0.5:
+                    ops.append(read_op(rng, w, k, i, c, lane))
+        gens.append({'ns': ns, 'nv': nv, 'sx': rng.choice([64, 64, 16, 1] if nwf == 1 else [128, 64]), 'wfs': wfs,
+                     'ka': rng.choice([[], [rng.randrange(256) for _ in range(8)]]),
+                     'wg': rng.choice([[], [rng.randrange(256), rng.randrange(4), 0, 0]]),
+                     'exec': rng.choice([[255] * 8, [rng.randrange(256) for _ in range(8)], [255] * 4 + [0] * 4]),
+                     'ops': ops})
+    return {'id': sid, 'ops': [], 'life': gens}
+
+
 def scale_behaviour(beh, rng, sid):
     """A RegFileScen behaviour (2-dword scalar granules, 2-register vector granules, 3 lanes, 2 SIMDs)
     scaled to the real geometry: one model register = a block of real registers."""
@@ -449,6 +485,28 @@ def corruptions():
 
 
 # ------------------------------------------------------------------- metrics
+def life_corruptions():
+    def stale_register(recs, rng):
+        idx = [i for i, r in enumerate(recs) if r['e'] == 'DF' and r['nv'] >= 2]
+        if not idx:
+            return None
+        r = recs[rng.choice(idx)]
+        # v<nv-1> of a lane >= 2 holds something although the wavefront never wrote it
+        r['init'].append([r['w'], 256 * (rng.randrange(2, 64) + 1) + r['nv'] - 1, [7, 0, 0, 1]])
+        return recs
+
+    def exec_not_initialised(recs, rng):
+        idx = [i for i, r in enumerate(recs) if r['e'] == 'DF' and any(x[1] == 126 for x in r['init'])]
+        if not idx:
+            return None
+        r = recs[rng.choice(idx)]
+        r['init'] = [x for x in r['init'] if x[1] != 126]
+        return recs
+
+    return [('fresh_wavefront_holds_a_retired_wavefronts_value', stale_register),
+            ('fresh_wavefront_lacks_its_exec_mask', exec_not_initialised)]
+
+
 def measure(ctx, traces):
     evals, classes, nontrivial = 0, set(), set()
     for t in traces:
@@ -457,12 +515,12 @@ def measure(ctx, traces):
             al = {}
             for r in recs:
                 e = r['e']
-                if e == 'D':
+                if e in ('D', 'DF'):
                     live[r['st']] += 1
                     al[(r['st'], r['w'])] = (r['ns'], r['nv'])
                 elif e == 'X':
                     live[r['st']] -= 1
-                if e not in ('D', 'X', 'W', 'R', 'Panic'):
+                if e not in ('D', 'DF', 'X', 'W', 'R', 'Panic'):
                     continue
                 evals += 1
                 if e in ('W', 'R', 'Panic'):
@@ -522,9 +580,13 @@ def run(ctx, selftest=False):
     nops = 160 if thorough else 90
     scen2 = [random_history(rng, 1000 + i, nops) for i in range(nrand)]
     scen2 += [full_history(rng, 5000 + i, 40) for i in range(12 if thorough else 3)]
+    # lifetime histories on the real emu.ComputeUnit (map -> run -> complete -> map the next work-group)
+    life = [life_history(rng, 7000 + i) for i in range(24 if thorough else 4)]
+    scen2 += life
     t2, st2 = run_driver(ctx, drv, scen2, 'rand')
     ctx.log('executed %d random histories on both stores: %s' % (len(scen2), st2))
     ctx.sample({'random_history_excerpt': scen2[0]['ops'][:1] + scen2[0]['ops'][7:12]})
+    ctx.sample({'emu_lifetime_history': [{k: (g[k] if k != 'ops' else g[k][:2]) for k in g} for g in life[0]['life'][:3]]})
     if ok:
         ok = validate(ctx, drv, t2, scen2)
         ctx.log('random traces validated')
@@ -539,6 +601,11 @@ def run(ctx, selftest=False):
     # 4. binding self-test on a trace of the real stores
     if ok:
         common.selftest_binding(ctx, TSPEC, t2, corruptions())
+        tl = os.path.join(ctx.scratch, 'life.ndjson')
+        vlib.write_ndjson(tl, [r for _, recs in vlib.split_traces(t2) if recs[0].get('life') for r in recs])
+        first = ctx.cov.get('binding_selftest', [])
+        common.selftest_binding(ctx, TSPEC, tl, life_corruptions())
+        ctx.cov['binding_selftest'] = first + ctx.cov['binding_selftest']
     ctx.assumptions += [
         'the driver reproduces ComputeUnit.handleMapWGReq/wrapWG (6 lines: NewWavefront, CURegFileAccessor, AddWf, '
         'DispatchWf) instead of delivering a MapWGReq, and ends wavefronts by handing s_endpgm to '
